@@ -163,6 +163,50 @@ def rand_tree_pair(rng, B, n=2):
         out.append(tree_term(e))
     return out
 
+def rand_cont_tuple_pair(rng, B, n=2):
+    """Arrays / Lists (and Tuples) whose ELEMENTS are Tuples, Trees whose VALUES are Tuples: the container's copy of a Tuple
+    references the objects of its source.  All element Tuples have the same kinds slot by slot (any prefix); no Tuple holds an
+    object twice; the second operand may reference objects of the first (each at most once per Tuple)."""
+    kinds = [rng.choice('iifs') for _ in range(rng.randrange(0, 4))]
+    def slot(k): return small_elem(rng, k) if rng.random() < 0.6 else rand_scalar(rng, k, B)
+    def new_tuple(): return [slot(k) for k in kinds[:(len(kinds) if rng.random() < 0.75 else rng.randrange(0, len(kinds) + 1))]]
+    base = [new_tuple() for _ in range(rng.randrange(0, 4))]
+    tree = rng.random() < 0.3
+    keys = rng.sample(SMALL_I + [3, 4, 5], len(base)) if tree else None
+    names = Names(); named = {}          # (tuple index, slot index) -> name, for objects of the first operand
+    out = []
+    for op in range(n):
+        e = [list(t) for t in base]; ks = list(keys) if tree else None
+        r = rng.random()
+        if r < 0.25: pass
+        elif r < 0.4 and e:
+            cut = rng.randrange(0, len(e)); e = e[:cut]
+            if tree: ks = ks[:cut]
+        elif r < 0.55:
+            e.append(new_tuple())
+            if tree: ks.append(rng.choice([6, 7, -2]))
+        elif e:
+            i = rng.randrange(len(e)); q = rng.random()
+            if q < 0.5 and e[i]: j = rng.randrange(len(e[i])); e[i][j] = slot(kinds[j])
+            elif q < 0.75: e[i] = e[i][:rng.randrange(0, len(e[i]) + 1)]
+            else: e[i] = new_tuple()
+        terms = []
+        for i, t in enumerate(e):
+            sl = []
+            for j, x in enumerate(t):
+                if op == 0 and i < len(base) and names.n < 40 and rng.random() < 0.4:
+                    named[(i, j)] = (names.new(), x); sl.append(f'&{named[(i, j)][0]} {x}')
+                elif op > 0 and (i, j) in named and named[(i, j)][1] == x and rng.random() < 0.6:
+                    sl.append(f'*{named[(i, j)][0]}')          # the object of the first operand, once in this Tuple
+                else: sl.append(x)
+            terms.append(seq_term('T', sl))
+        if tree:
+            if rng.random() < 0.3:
+                z = list(zip(ks, terms)); rng.shuffle(z); ks = [a for a, _ in z]; terms = [b for _, b in z]
+            out.append(tree_term([(ti(k), t) for k, t in zip(ks, terms)]))
+        else: out.append(seq_term(rng.choice('AALLT'), terms))
+    return out
+
 def rand_plain(rng, tid=None):
     tid = rng.choice([1, 1, 2, 3, 3, 0]) if tid is None else tid
     n = {0: 0, 1: 4, 2: 4, 3: 16}[tid]
@@ -256,6 +300,22 @@ def alias_nested_case(rng):
     if rng.random() < 0.5 and rin: rin[rng.randrange(len(rin))] = small_elem(rng, 'i' if content[0][0] == 'i' else 's')
     rtail = list(tail)
     if rng.random() < 0.3 and rtail: rtail[-1] = small_elem(rng, 'i')
+    if rng.random() < 0.45:
+        # the Tuple with a repeated object as an ELEMENT of an Array / List or a VALUE of a Tree in the LEFT operand: the
+        # container's copy of it (Tuple_Assign copies the item pointers) references the object twice as well
+        ek = 'i' if content[0][0] == 'i' else 's'
+        more = [seq_term('T', [small_elem(rng, ek) for _ in range(rng.randrange(0, 3))]) for _ in range(rng.randrange(0, 3))]
+        rmore = list(more)
+        if rng.random() < 0.3 and rmore: rmore[-1] = seq_term('T', [small_elem(rng, ek)])
+        pos = rng.randrange(0, len(more) + 1)
+        if rng.random() < 0.7:
+            left = seq_term(rng.choice('AL'), more[:pos] + [inner] + more[pos:])
+            right = seq_term(rng.choice('ALT'), rmore[:pos] + [seq_term('T', rin)] + rmore[pos:])
+        else:
+            keys = rng.sample([0, 1, 2, 3, 1 << 32], len(more) + 1)
+            left = tree_term(list(zip(map(ti, keys), more[:pos] + [inner] + more[pos:])))
+            right = tree_term(list(zip(map(ti, keys), rmore[:pos] + [seq_term('T', rin)] + rmore[pos:])))
+        return f'lcmp {left} {right}'
     if rng.random() < 0.5:
         left = seq_term('T', [inner] + tail); right = seq_term('T', [seq_term(rng.choice('TAL'), rin)] + rtail)
     else:
@@ -302,7 +362,7 @@ def alias_lines(rng, B, n):
     out = []
     for _ in range(n):
         r = rng.random()
-        if r < 0.6: out.append(alias_left_case(rng))
+        if r < 0.55: out.append(alias_left_case(rng))
         elif r < 0.72: out.append(alias_nested_case(rng))
         elif r < 0.86: out.append(alias_between_case(rng))
         else: out.append(alias_self_case(rng, B))
@@ -325,27 +385,31 @@ class C09(Spec):
                   'lexicographic order of unsigned bytes, lawful and strict; C09_lex / C09_lex_eq / C09_lex_shape / C09_tree — any lawful element comparison lifts to '
                   'Array/List/Tuple and to Tree entries (key then value), 0 exactly on elementwise-equal sequences, independent of container kind (C09_lex_content); '
                   'C09_preds — eq neq gt lt ge le as TRANSLATED from src/Cmp.c are exactly =0 ≠0 >0 <0 ≥0 ≤0 of cmp, for every comparison function; '
-                  'C09_float_under_SubSign — Float_Cmp as TRANSLATED is the numeric order of non-NaN doubles under the stated IEEE hypothesis; '
-                  'C09_val / C09_val_float_free — cmp on every well-kinded nested value (any depth) is a lawful order, 0 exactly on equal content, unconditionally when no Float occurs; '
+                  'C09_float_bits_order — the VALUE of a binary64 bit pattern by the IEEE formula over (sign, exponent, mantissa) orders all 2^128 pairs exactly as the sign-magnitude reading of the bits, equal values = same pattern or both zeros; '
+                  'C09_float_difference_sign — under any rounding that is monotone, NaN-free and exact on 0 and ±2^-1074 the rounded exact difference of two doubles has the sign of the exact difference and is 0 only for equal values; '
+                  'C09_float — Float_Cmp as TRANSLATED, run on IEEE subtraction (exact difference rounded; inf-inf = NaN) is the numeric order of all non-NaN doubles (signed zeros equal, denormals distinct, infinities extreme and equal to themselves), lawful, 0 exactly on equal values; '
+                  'hypothesis Rounding met by roundTowardZero (rounding_trunc) and by the sign-only rounding the driver runs; C09_float_under_SubSign_partial — the same for abstract operations under SubSign (kept conditional; C09_float_machine_statement is the unproved statement about the hardware); '
+                  'C09_val / C09_val_float_free / C09_val_tuple — cmp on every well-kinded nested value (any depth; Kind.cons / Kind.tup = a kind per slot: heterogeneous Tuples) is a lawful order, 0 exactly on equal content, unconditionally when no Float occurs; '
                   'C09_tree_order / C09_tree_finds_every_key — a Tree built under a lawful cmp iterates strictly descending and holds every key set; '
                   'C09_int_truncating_refuted — the pre-fix subtract-and-truncate Int_Cmp returns 0 on (0, 2^32) and is not antisymmetric; C09_loops_as_modelled — the C loop '
                   'and iterator-step texts equal the texts the model mirrors; C09_discipline_as_modelled — Array_Cmp/List_Cmp advance along self through their iterators, Tuple_Cmp by slot index '
                   '(read off the source on every run). ALIASING (objects with identity, objCmpF): C09_tuple_walk_content_partial — under the source discipline cmp(self, obj) ends within '
                   'size(self) steps and equals the comparison of the CONTENTS for every self (any object in any number of Tuple slots at any depth, shared with obj, or self = obj), '
-                  'provided no Tuple inside obj holds an object twice; C09_obj — hence a lawful order, 0 exactly on equal content, on such objects; '
+                  'provided no Tuple inside obj — also as an element of an Array / List or a value of a Tree (Obj.cont / Obj.tree: the copy made by Tuple_Assign references the source\'s objects) — holds an object twice; C09_obj — hence a lawful order, 0 exactly on equal content, on such objects; '
                   'C09_tuple_walk_content_refuted — known finding KF-C09-tuple-dup-obj: a Tuple holding an object twice as the RIGHT operand is walked by identity (Tuple_Iter_Next): '
-                  'cmp(x,x)=1, cmp(x,arr)=0 but cmp(arr,x)=1; C09_tuple_identity_walk_refuted — the variant of Tuple_Cmp that walks self through Tuple_Iter_Next is not an order: '
+                  'cmp(x,x)=1, cmp(x,arr)=0 but cmp(arr,x)=1; the same through new(Array, Tuple, x), new(List, Tuple, x), new(Tree, Int, Tuple, k, x); C09_tuple_identity_walk_refuted — the variant of Tuple_Cmp that walks self through Tuple_Iter_Next is not an order: '
                   '-1 against an Array of equal content, +1 against a longer List, and cmp(x,x) has no value for any fuel (never terminates). '
                   'The model is tied to the real functions by running boundary grids, random pairs/triples and the aliasing corpora on both, '
                   'and the real results are checked against an independent content-based reference order in C.')
-    level_note = ('partial for Float: the hypothesis SubSign (sign of the double difference = sign of the real difference, non-NaN) is tested on the '
-                  'grid (denormals, signed zeros, infinities, extremes, random bits), never proved; Lean does not model IEEE-754. '
+    level_note = ('Float: proved for IEEE-754 subtraction as the standard defines it on bit patterns (decode by the formula, exact difference, any monotone NaN-free rounding that keeps 0 and ±2^-1074); '
+                  'that the HARDWARE subtracts like that (x86-64 SSE, no flush-to-zero) is trusted and tested on the grid (denormals, signed zeros, infinities, extremes, random bits): the driver runs the bit-level model, the harness the machine. '
                   'Trusted: Lean kernel; the C-expression translator translate/g_cmp.py (machine integer semantics of `-`, casts, signed `<`); '
                   'libc strcmp/memcmp return the sign of the first differing unsigned byte (C standard; tested); harness/driver comparison is testing. '
                   'Partial for aliasing: proved for every self and every obj none of whose Tuples holds an object twice; the rest is the known finding (refuted theorem). '
                   'Not covered: comparisons between values of different kinds (Int with Float, …: c_int/c_float conversions), NaN, Table_Cmp (C10), '
                   'Thread/Range/Slice/Ref/Box/File comparisons, strings with embedded NUL.')
     rule = ('ops: `cmp A B` (sign both ways + six predicates), `tri A B C` (six signs), `keys …` (Tree + Table keyed on the values), `sort …`. '
+            'Array / List elements and Tree values may be Tuples (element type Tuple: the copy references the source\'s objects), heterogeneous slot by slot, shared between the operands; with a repeated object only in the LEFT operand. '
             'Values: full boundary grids for Int (±2^e±{0,1,2}, e up to 63), Float bits (signed zeros, denormals, 1±ulp, 2^53 neighbours, DBL_MAX, infinities), '
             'strings (prefixes, bytes 0x01/0x7f/0x80/0xff), all built-in type names, plain structs of 0/4/16 bytes (two distinct 4-byte types); '
             'random pairs and triples biased to boundaries and to related values; Array/List/Tuple of scalars and of containers with related contents '
@@ -359,10 +423,10 @@ class C09(Spec):
             'non-trivial = the observation shows a non-zero sign, an exception, or a keys/sort op over at least 2 values; distinct = distinct op text.')
     trusted_base = ('translate/g_cmp.py (C expression fragment -> BitVec 64/32 semantics; regex extraction of function bodies; by-index / by-iterator read off the loop text)',
                     'harness/h_cmp.c + lean/Driver/Cmp.lean (correspondence is testing)',
-                    'libc strcmp/memcmp sign convention; IEEE-754 double subtraction (hypothesis SubSign, tested)')
+                    'libc strcmp/memcmp sign convention; the hardware implements IEEE-754 binary64 subtraction and < (correctly rounded in some rounding direction, gradual underflow) — tested')
     assumptions = ('both operands of one kind at every level (Int/Int, Float/Float, String/String, Type/Type, sequence/sequence, Tree/Tree, plain struct/plain struct)',
-                   'no NaN; strings without embedded NUL; Array/List elements of one element type; Tree keys and values scalar',
-                   'a Tuple that references one object from two slots is generated as the LEFT operand only: as the right operand it is walked by identity (known finding '
+                   'no NaN; strings without embedded NUL; Array/List elements of one element type (scalars, Arrays, Lists, Tuples); Tree keys scalar, values scalar or Tuples',
+                   'a Tuple that references one object from two slots is generated inside the LEFT operand only (at top level, as a slot of a Tuple, as an element of an Array / List, as a value of a Tree): inside the right operand it is walked by identity (known finding '
                    'KF-C09-tuple-dup-obj, root cause F13; witness corpus/kf_c09_tuple_dup.ops, model agrees line by line); Type objects are not put into Tuples',
                    'where a Tuple holds an object twice, all elements of the two sequences compared are of one kind (an identity walk may bring any of them against any other); no object contains itself',
                    'x86-64 SSE double arithmetic (no x87 excess precision, no flush-to-zero)')
@@ -438,9 +502,12 @@ class C09(Spec):
             if r < 0.45:
                 if rng.random() < 0.7: a, b = rand_seq_pair(rng, B); lines.append(f'cmp {a} {b}')
                 else: a, b, c = rand_seq_pair(rng, B, 3); lines.append(f'tri {a} {b} {c}')
-            elif r < 0.65:
+            elif r < 0.62:
                 if rng.random() < 0.7: a, b = rand_tuple_pair(rng, B); lines.append(f'cmp {a} {b}')
                 else: a, b, c = rand_tuple_pair(rng, B, 3); lines.append(f'tri {a} {b} {c}')
+            elif r < 0.70:
+                if rng.random() < 0.7: a, b = rand_cont_tuple_pair(rng, B); lines.append(f'cmp {a} {b}')
+                else: a, b, c = rand_cont_tuple_pair(rng, B, 3); lines.append(f'tri {a} {b} {c}')
             elif r < 0.9:
                 if rng.random() < 0.7: a, b = rand_tree_pair(rng, B); lines.append(f'cmp {a} {b}')
                 else: a, b, c = rand_tree_pair(rng, B, 3); lines.append(f'tri {a} {b} {c}')
